@@ -21,7 +21,6 @@ import (
 	"time"
 
 	"github.com/pkg/errors"
-	pb "google.golang.org/protobuf/proto"
 
 	"github.com/oxia-db/oxia/common/concurrent"
 	"github.com/oxia-db/oxia/common/process"
@@ -228,8 +227,9 @@ func (t *notificationsTrimmer) readAt(offset int64) (time.Time, error) {
 
 	defer closer.Close()
 
+	// The batches are written with MarshalVT, which (unlike pb.Unmarshal) does not insist on UTF-8 keys
 	nb := &proto.NotificationBatch{}
-	if err := pb.Unmarshal(res, nb); err != nil {
+	if err := nb.UnmarshalVT(res); err != nil {
 		return time.Time{}, errors.Wrap(err, "failed to Deserialize notification batch")
 	}
 
